@@ -172,6 +172,26 @@ LitFresh ==
                                               SAsg(EVar("all", TArr(TM)), EBin("+", EVar("all", TArr(TM)), EArr(<<EVar("t", TM)>>))), Pr(<<EVar("t", TM)>>)>>),
                Pr(<<EVar("all", TArr(TM))>>)>>, <<>>) }
 
+\* 11e. a basic value that has been read (an operand waiting for the other operand, a value being returned) is a copy:
+\* an assignment to the variable it was read from, made by a function called meanwhile, does not change it
+Pending ==
+  LET tot == EVar("total", T_num)   word == EVar("word", T_str)   rdy == EVar("ready", T_bool)
+      bump == FuncDef("bump", <<>>, <<>>, T_num, <<SAsg(tot, EBin("+", tot, Num(10))), SRetV(tot, T_num)>>)
+      cur == FuncDef("current", <<>>, <<>>, T_num, <<SRetV(tot, T_num)>>)
+      ren == FuncDef("rename", <<>>, <<>>, T_str, <<SAsg(word, EBin("+", word, EStr(<<33>>))), SRetV(word, T_str)>>)
+      dis == FuncDef("disarm", <<>>, <<>>, T_bool, <<SAsg(rdy, EBool(FALSE)), SRetV(EBool(TRUE), T_bool)>>)
+      Bu == ECallU("bump", FSig(bump), <<>>)   Cu == ECallU("current", FSig(cur), <<>>)   Rn == ECallU("rename", FSig(ren), <<>>)   Di == ECallU("disarm", FSig(dis), <<>>)
+      Exprs == { EBin("+", tot, Bu), EBin("+", Bu, tot), EBin("+", Cu, Bu), EBin("==", Cu, Bu), EBin("<", tot, Bu), EBin("-", EBin("*", tot, Num(2)), Bu),
+                 EBin("+", word, Rn), EBin("==", word, Rn), EBin("and", rdy, Di), EBin("==", rdy, EBin("and", Di, rdy)), EArr(<<tot, Bu, tot>>), EArr(<<Cu, Bu, Cu>>) }
+  IN { P(<<SInfer("total", Num(1)), SInfer("word", EStr(<<119>>)), SInfer("ready", EBool(TRUE)), Pr(<<e>>), Pr(<<tot, word, rdy>>)>>, <<bump, cur, ren, dis>>) : e \in Exprs }
+\* 11f. concatenation is fresh also when its left operand is itself the result of (repeated) concatenation
+AccFresh ==
+  LET TN == TArr(T_num)
+      base == EVar("base", TN)   five == EVar("five", TN)   six == EVar("six", TN)   snap == EVar("snap", TN)
+  IN { P(<<SDecl("base", TN), SFor("i", "num", <<Num(n)>>, <<SAsg(base, EBin("+", base, EArr(<<EVar("i", T_num)>>)))>>), SInfer("snap", base),
+           SInfer("five", EBin("+", base, EArr(<<Num(5)>>))), SInfer("six", EBin("+", base, EArr(<<Num(6)>>))), Pr(<<base, five, six, snap>>),
+           SAsg(EIdx(five, Num(0)), Num(100)), SAsg(base, EBin("+", base, EArr(<<Num(7)>>))), Pr(<<base, five, six, snap>>)>>, <<>>) : n \in 1..7 }
+
 \* 12. err and errmsg are ordinary bool / string variables that conversions update
 ErrV == EVar("err", T_bool)
 ErrM == EVar("errmsg", T_str)
@@ -246,7 +266,7 @@ Progs ==
   \cup UNION {{ByAny(td, kd), ByAnyElem(td, kd)} : td \in TDs \ {td \in TDs : td.ty = T_any}, kd \in {"assign"}}
   \cup UNION {{ByAny(td, "inplace"), ByAnyElem(td, "inplace")} : td \in Comp}
   \cup UNION {{Fresh(td, how, kd) : how \in {"slice", "slice1", "concat", "rep"}, kd \in {"assign", "inplace"}} : td \in Arrs}
-  \cup ErrProgs \cup RepAnyProgs \cup FreshOps \cup LoopRefs \cup LitFresh
+  \cup ErrProgs \cup RepAnyProgs \cup FreshOps \cup LoopRefs \cup LitFresh \cup Pending \cup AccFresh
 
 FamCases == {MkCase("FamAlias", IF p \in ErrProgs THEN "err" ELSE "alias", p) : p \in Progs}
 FamInit == InitWith(FamCases)
